@@ -48,6 +48,10 @@ FIXED = [
     (['C20', 'C02', 'C07'], 'terminate:BitSerializer::ParsingException', 'exceptions thrown from destructors', 'one byte MsgPack document 0x81 into a class -> std::terminate from ~CMsgPackReadObjectScope; ragged CSV rows -> terminate from ~CCsvWriteObjectScope'),
     (['C03', 'C10'], 'msgpack stream reposition', 'could not be repositioned', 'MsgPack stream larger than 256 bytes with members requested out of order: seekg failed (eofbit+failbit) and the result was ignored, garbage parsed'),
     (['C06'], 'int-not-compact/nonneg-in-signed-family', 'most compact format for positive values of signed types', 'int16_t 173 written as int16 (D1 00 AD) instead of uint8 (CC AD); same for 32768..65535 and 2^31..2^32-1'),
+    (['C20'], 'in-fail/died/msgpack/terminate:std::ios_base::failure', 'first read of a MsgPack stream terminated', 'MsgPack stream whose streambuf throws (or exceptions(badbit) is set) on the first read: exception escaped the noexcept constructor of CMsgPackStreamReader -> std::terminate'),
+    (['C20', 'C02'], 'in-fail/died/csv/hang', 'CSV loading never finished when the input stream fails', 'CSV stream that goes bad() mid-way: CEncodedStreamReader::IsEnd() never true, endless empty rows'),
+    (['C02'], 'died/xml/assert (end iterator)', 'end iterator was dereferenced', 'XML array with fewer items than std::tuple/std::array target: mValueIt->end() on the end iterator (pugixml assertion / UB)'),
+    (['C02', 'C07'], 'crash/corrupt/asan:requested allocation / hang', 'preallocated with the size declared in the input', 'MsgPack DD DE 00 00 00 (array32 of 3.7e9 items) into std::deque<std::string>: minutes of CPU / allocation-size-too-big'),
     (['C13'], 'detect one-character text', 'consists of one UTF-16/UTF-32 character', 'BOM-less UTF-32 text of one character detected as UTF-16 (i + 4 < size)'),
 ]
 
